@@ -10,6 +10,11 @@ TB = ("Trusted: Coq 8.16.1 kernel; no axioms of our own (Print Assumptions allow
 ASM = "Premises (all about the user's model / configuration, see DESIGN.md section 4): clean diagram flavours (LEL, frontier), no cache, no dominance rule, SimpleFringe, width >= 1, static variable order, a covering relation making merge / relax / the rough bound sound, bounded domains, values of feasible runs within [-B, B] with 2B <= isize::MAX; shown satisfiable by a table family the correspondence harness runs (TableWf.v). "
 TIE = "The solver / protocol model is compared run by run with the code in every configuration (3 flavours x cache x fringe x widths x dominance) and the implementation's answers with exhaustive enumeration extracted from the Coq specification; pooled / cache / dominance / NoDupFringe configurations are covered by that correspondence + oracle only. "
 
+DIA = "An executable Coq model of the three diagram implementations (Mdd.v: clean LEL / frontier / pooled, one parametric transliteration) is compared with the code on every compilation of the stream (API results, drained cut-set, full DOT dump with node ids / flags / bounds / thresholds / edges, callback log), with histories on one diagram object per flavour on the implementation side; the property's clauses are evaluated on the implementation's answers with the extracted Coq specification (exhaustive enumeration of the sub-problem) as oracle; a widened failing-input search runs when the correspondence breaks. The pooled flavour is covered by that correspondence + oracle only. "
+PREM = "Premises: clean flavours, no cache / dominance rule, width >= 1, static variable order, a covering relation making merge / relax / the rough bound sound (machine-integer variant), values of feasible runs within [-B, B], 2B <= isize::MAX; proved for the harness's table family (table_* theorems, concrete instances with strict gaps). "
+DNOTE = TB + "Hash-map iteration order is abstracted (layers sorted by a total DominanceChecker comparator; tie among equally valued terminals = oracle argument, theorems hold for every value of it)."
+DTECH = "Coq proof about the diagram model (invariants + simulation) + differential correspondence + specification oracle"
+
 CHECKS = {
  "C17": dict(cat="proof", design="7.17",
    text="Closed Coq theorems (Flocq binary32) for every pair of isize bounds: never NaN, never negative, 1 while a bound is infinite, 0 iff bounds "
@@ -41,30 +46,24 @@ CHECKS = {
         "solver runs against exhaustive enumeration.",
    note=TB + "Open: C10_search_sound.",
    technique="Coq proof (checker) + differential correspondence; solver-level by oracle comparison"),
- "C06": dict(cat="other", design="7.6",
-   text="relaxed diagrams: valid upper bound, truthful exactness. An executable Coq model of the three diagram implementations (Mdd.v: clean LEL / frontier / pooled, one parametric transliteration) is compared "
-        "with the code on every compilation of the stream (API results, drained cut-set, full DOT dump with node ids/flags/bounds/thresholds/edges, callback log): "
-        "any behavioural change of the diagram code breaks the correspondence. The property's clauses are evaluated on the implementation's answers with the "
-        "extracted Coq specification (exhaustive enumeration of the sub-problem) as oracle. Theorems about the model are registered in Props/C06.v as they are "
-        "closed; the semantic bound/cover theorems are still open obligations (listed in the evidence).",
-   note=TB + "Hash-map iteration order is abstracted (layers sorted by a total DominanceChecker comparator; tie among equally valued terminals = oracle argument).",
-   technique="executable Coq model + differential correspondence + specification oracle; partial Coq theorems"),
- "C07": dict(cat="other", design="7.7",
-   text="restricted diagrams: feasible lower bounds; exact mode optimal. An executable Coq model of the three diagram implementations (Mdd.v: clean LEL / frontier / pooled, one parametric transliteration) is compared "
-        "with the code on every compilation of the stream (API results, drained cut-set, full DOT dump with node ids/flags/bounds/thresholds/edges, callback log): "
-        "any behavioural change of the diagram code breaks the correspondence. The property's clauses are evaluated on the implementation's answers with the "
-        "extracted Coq specification (exhaustive enumeration of the sub-problem) as oracle. Theorems about the model are registered in Props/C07.v as they are "
-        "closed; the semantic bound/cover theorems are still open obligations (listed in the evidence).",
-   note=TB + "Hash-map iteration order is abstracted (layers sorted by a total DominanceChecker comparator; tie among equally valued terminals = oracle argument).",
-   technique="executable Coq model + differential correspondence + specification oracle; partial Coq theorems"),
- "C08": dict(cat="other", design="7.8",
-   text="cut-sets: exact, progressing, validly bounded, covering. An executable Coq model of the three diagram implementations (Mdd.v: clean LEL / frontier / pooled, one parametric transliteration) is compared "
-        "with the code on every compilation of the stream (API results, drained cut-set, full DOT dump with node ids/flags/bounds/thresholds/edges, callback log): "
-        "any behavioural change of the diagram code breaks the correspondence. The property's clauses are evaluated on the implementation's answers with the "
-        "extracted Coq specification (exhaustive enumeration of the sub-problem) as oracle. Theorems about the model are registered in Props/C08.v as they are "
-        "closed; the semantic bound/cover theorems are still open obligations (listed in the evidence).",
-   note=TB + "Hash-map iteration order is abstracted (layers sorted by a total DominanceChecker comparator; tie among equally valued terminals = oracle argument).",
-   technique="executable Coq model + differential correspondence + specification oracle; partial Coq theorems"),
+ "C06": dict(cat="proof", design="7.6",
+   text="Relaxed diagrams: valid upper bound, truthful exactness. Closed Coq theorems about Mdd.compile for ANY compilation input and tie-break: C06_relaxed_value_is_an_upper_bound (best value >= the "
+        "sub-problem optimum whenever it beats the incumbent), C06_exactness_claim_is_truthful (declared exact => best exact value = optimum), C06_best_exact_solution_is_genuine (the best exact "
+        "solution replays to exactly that value). " + PREM + DIA,
+   note=DNOTE,
+   technique=DTECH),
+ "C07": dict(cat="proof", design="7.7",
+   text="Restricted diagrams: feasible lower bounds; exact mode optimal. Closed Coq theorems: C07_restricted_value_is_feasible (the best value is the value of a complete feasible run whose decisions "
+        "are the best solution, exact integer arithmetic), C07_restricted_value_is_a_lower_bound, C06_exactness_claim_is_truthful (any compilation type), C07_exact_mode_yields_the_optimum (any width). "
+        + PREM + DIA,
+   note=DNOTE,
+   technique=DTECH),
+ "C08": dict(cat="proof", design="7.8",
+   text="Cut-sets: exact, progressing, validly bounded, covering. Closed Coq theorems for both cut-set types (last exact layer, frontier): (i) C08_cutset_nodes_are_exact, (ii) "
+        "C08_cutset_nodes_are_strictly_deeper (+ C08_cutset_is_bounded), (iii) C08_cutset_upper_bounds_are_valid, (iv) C08_cutset_covers_the_optimum. " + PREM + DIA +
+        "(ii) is FALSE for the pooled flavour with long arcs: known finding D1, suppressed only where the Coq model of the unchanged code hands out the same node.",
+   note=DNOTE,
+   technique=DTECH),
  "C12": dict(cat="other", design="7.12",
    text="callback protocol. An executable Coq model of the three diagram implementations (Mdd.v: clean LEL / frontier / pooled, one parametric transliteration) is compared "
         "with the code on every compilation of the stream (API results, drained cut-set, full DOT dump with node ids/flags/bounds/thresholds/edges, callback log): "
@@ -92,7 +91,8 @@ CHECKS = {
  "C01": dict(cat="proof", design="7.1",
    text="Sequential branch-and-bound returns the true optimum. Closed, axiom-free Coq theorem C01_sequential_solver_returns_optimum (Assembly.v = SolverProofs.v + MddProgress.v + MddSim.v): "
         "there is f0 such that for every fuel >= f0 the model of SequentialSolver::maximize neither crashes nor runs out of fuel, reports is_exact, best_value = the optimum of exhaustive "
-        "enumeration (None iff infeasible), lower = upper bound = optimum and a solution feasible with that value. " + ASM + TIE,
+        "enumeration (None iff infeasible), lower = upper bound = optimum and a solution feasible with that value; C01_sequential_solver_returns_optimum_NoDupFringe is the same theorem with the faithful "
+        "indexed-heap model of NoDupFringe (coalescing pushes). " + ASM + TIE,
    note=TB + "Hash-map iteration order abstracted (total comparator + tie-break oracle arguments); ties among equally valued terminal nodes are reported and excluded from trajectory comparisons.",
    technique="Coq proof (two storeys: B&B under diagram contracts; contracts proved about the diagram model) + differential correspondence + specification oracle"),
  "C02": dict(cat="proof", design="7.2",
